@@ -11,6 +11,9 @@ case "$1" in
   mkdir -p $LAB/verif
   rsync -a --delete --exclude work --exclude .git --exclude 'harness/*/Cargo.lock' --exclude evidence /verif/ $LAB/verif/
   mkdir -p $LAB/verif/work $LAB/verif/evidence
+  # rsync -a keeps source mtimes, which can be OLDER than build artifacts left in $LAB/verif/work from an earlier state:
+  # cargo would then reuse a stale nd / harness rlib (seen: release and Miri replays failing to compile). Touch the sources.
+  find $LAB/verif/harness -name '*.rs' -exec touch {} +
   grep -rl '/repo/' $LAB/verif/harness/*/Cargo.toml | xargs -r sed -i "s|/repo/|$LAB/repo/|g"
   echo "lab ready at $LAB (repo $(git -C $LAB/repo rev-parse --short HEAD))"
   ;;
